@@ -97,7 +97,8 @@ class World:
                 raise ValueError(kind)
             self.units[sym] = u
         rows = [(self.units[r['from']], self.units[r['to']],
-                 mk_amount(r['f'], 'frac'), mk_amount(r['o'], 'dec')) for r in wj['ttable']]
+                 mk_amount(r['f'], 'int' if r['f'][1] == 1 and r['o'][1] == 1 and r['f'][0] != 1 else 'frac'),
+                 mk_amount(r['o'], 'int' if r['f'][1] == 1 and r['o'][1] == 1 and r['f'][0] != 1 else 'dec')) for r in wj['ttable']]
         if rows:
             self.types['T'].register_converter(TableConverter(rows))
         self.Quantity = Quantity
